@@ -258,14 +258,24 @@ func jobsFor(L *Loaded, id string, opt runOpts) ([]unitJob, []*UnitResult) {
 		var walk func(f *ssa.Function)
 		walk = func(f *ssa.Function) {
 			for _, a := range f.AnonFuncs {
+				if a.Synthetic != "" { // the body of a range-over-func loop is part of the literal around it
+					walk(a)
+					continue
+				}
 				if L.anchorMatches(a, c.anchor) {
 					// prefer the innermost literal containing the anchor
 					inner := false
-					for _, aa := range a.AnonFuncs {
-						if L.anchorMatches(aa, c.anchor) {
-							inner = true
+					var deeper func(g *ssa.Function)
+					deeper = func(g *ssa.Function) {
+						for _, aa := range g.AnonFuncs {
+							if aa.Synthetic != "" {
+								deeper(aa)
+							} else if L.anchorMatches(aa, c.anchor) {
+								inner = true
+							}
 						}
 					}
+					deeper(a)
 					if !inner {
 						hits = append(hits, a)
 					}
